@@ -212,9 +212,18 @@ class PhasePredictor(QTable):
         t = max(a, min(b, a + x * u.s))
         # A float64 offset from the start of a long interval is too coarse:
         # polish the root with Newton steps on the timestamp itself.
+        resid = (self(t) - phase).value
         for _ in range(2):
-            step = (self(t) - phase).value / self.f0(t).value
-            t = max(a, min(b, t - step * u.s))
+            new = max(a, min(b, t - resid / self.f0(t).value * u.s))
+            new_resid = (self(new) - phase).value
+            if abs(new_resid) >= abs(resid):
+                break
+            t, resid = new, new_resid
+
+        # Where two entries meet, their predictions differ slightly: a phase
+        # inside such a jump is not predicted by any entry.
+        if abs(resid) > 1e-8 + 2e-11 * abs(self.f0(t).value):
+            raise ValueError("Given phase is not attained by the predictor.")
         return t
 
     @classmethod
